@@ -612,3 +612,42 @@ func pathsFromPass(start ssa.Instruction, pred func(ssa.Instruction) bool) (bool
 	}
 	return true, ""
 }
+
+// blockPathsPass: every path from the start of block b0 executes an
+// instruction satisfying pred before it reaches a block for which stop is
+// true or a return.
+func blockPathsPass(b0 *ssa.BasicBlock, stop func(*ssa.BasicBlock) bool, pred func(ssa.Instruction) bool) (bool, string) {
+	seen := map[*ssa.BasicBlock]bool{}
+	var bad []string
+	var rec func(b *ssa.BasicBlock, path []string) bool
+	rec = func(b *ssa.BasicBlock, path []string) bool {
+		if seen[b] {
+			return true
+		}
+		seen[b] = true
+		path = append(path, "block "+itoa(b.Index))
+		if len(path) > 1 && stop(b) {
+			bad = path
+			return false
+		}
+		for _, in := range b.Instrs {
+			if pred(in) {
+				return true
+			}
+			if _, isRet := in.(*ssa.Return); isRet {
+				bad = path
+				return false
+			}
+		}
+		for _, s := range b.Succs {
+			if !rec(s, path) {
+				return false
+			}
+		}
+		return true
+	}
+	if rec(b0, nil) {
+		return true, ""
+	}
+	return false, strings.Join(bad, " → ")
+}
